@@ -297,6 +297,22 @@ def dec_dict(d):
             "rule_id": d.rule_id, "policy_id": d.policy_id, "reason": d.reason}
 
 
+class Opaque:
+    """an application object in a request (lit("object", name)): equal by name, str() = repr() = a stable text"""
+
+    def __init__(self, name):
+        self.name = name
+
+    def __repr__(self):
+        return "Opaque(%r)" % (self.name,)
+
+    def __eq__(self, other):
+        return isinstance(other, Opaque) and other.name == self.name
+
+    def __hash__(self):
+        return hash(("Opaque", self.name))
+
+
 def lit(kind, v):
     """marker for a value JSON cannot carry (cases stay JSON): materialised just before the implementation sees it"""
     return {"$lit": [kind, v]}
@@ -323,6 +339,10 @@ def materialise(x):
                 return set(materialise(y) for y in v)
             if kind == "bytes":
                 return bytes.fromhex(v)
+            if kind == "frozenset":
+                return frozenset(materialise(y) for y in v)
+            if kind == "object":
+                return Opaque(v)
             raise ValueError("unknown literal kind " + repr(kind))
         return {k: materialise(v) for k, v in x.items()}
     if isinstance(x, list):
@@ -727,6 +747,10 @@ def check_cases(chk, cases, replay=False):
             d = r["cached"]
             chk.count("decision:" + ("raise" if isinstance(d, list) else "%s/%s" % (d["effect"], d["reason"])))
         chk.sample({"case": strip(c), "impl": res, "model": m}, every=4999)
+        if c.get("lits") and str(c.get("fam", "")).startswith(("nonjson", "random-nonjson")):
+            chk.count("nonjson:histories")
+            if modes_differ(c, res):
+                chk.count("nonjson:histories_in_which_lax_and_strict_decide_one_request_differently_(uncached)")
         # 1. the property itself, on the implementation alone
         bad, known = impl_verdict(c, res)
         if known:
@@ -753,9 +777,11 @@ def check_cases(chk, cases, replay=False):
                           strip(small), impl=sres, model=m if small is c else None,
                           note="cached vs uncached compared on the implementation alone (theorem c08_transparent is "
                                "what the model proves); outside the class of F16"
-                               + ("; the history carries a value that is not JSON: in a REQUEST this is the behaviour of fixed "
-                                  "finding F26 (cache key built with default=str); in a POLICY literal it means the policy tag "
-                                  "(etag) no longer separates two policies (hypothesis tag_inj)" if impl_only(c) == "nonjson" else "")
+                               + ("; the history carries a value that is not JSON: in a REQUEST the cache key is then built on the "
+                                  "slow path of Guard._normalize_env_for_cache, which must keep apart whatever the plain-JSON key "
+                                  "keeps apart (type mode marker, every section of the env, a value vs the string it prints as = "
+                                  "fixed finding F26); in a POLICY literal it means the policy tag (etag) no longer separates two "
+                                  "policies (hypothesis tag_inj)" if impl_only(c) == "nonjson" else "")
                                + ("; the engines have a role resolver: the uncached twin uses the same resolver object"
                                   if impl_only(c) == "resolver" else ""))
             continue
@@ -1225,6 +1251,222 @@ def check_tagpairs(chk, pairs, replay=False):
                            {k: v for k, v in pr.items() if not k.startswith("_")}, impl={"etag": e1}, theorems=THEOREMS)
 
 
+# --------------------------------------------------------------------------
+# requests carrying values that are NOT JSON (the slow path of the cache key) x type modes x shared cache
+# --------------------------------------------------------------------------
+# Any request of the pools can carry ("ride") a value json.dumps cannot print — a datetime, date, time, Decimal,
+# tuple, set, frozenset, bytes, an application object — somewhere in subject / resource / context: as an attribute
+# nobody reads, nested in a list / object, or as the id itself.  The engine then builds the key on another code
+# path; everything the key must keep apart for plain-JSON requests (type mode, policy, roles, context, JSON type of
+# the other values) it must keep apart there too.  Judged like every history: engine with the cache vs a fresh
+# uncached engine with the same current policy in the same type mode (the Coq model has JSON values only).
+DT0, DT1, DTM = "2026-10-02T12:00:00+00:00", "2026-10-03T12:00:00+00:00", "2026-10-01T12:00:00+00:00"
+NJ_VALUES = [
+    ("dt-aware", lit("datetime", DT0)), ("dt-naive", lit("datetime", "2026-10-02T12:00:00")),
+    ("date", lit("date", "2026-10-02")), ("time", lit("time", "12:30:00")), ("decimal", lit("decimal", "1.50")),
+    ("tuple", lit("tuple", [1, "a"])), ("set", lit("set", ["a"])), ("frozenset", lit("frozenset", [1])),
+    ("bytes", lit("bytes", "78")), ("object", lit("object", "tok")), ("tuple-of-dt", lit("tuple", [lit("datetime", DT0), 1])),
+]
+NJ_SITES = ["rattr", "sattr", "ctx", "rattr-list", "sattr-obj", "ctx-deep", "rid", "sid", "rattr+ctx"]
+CARRIED = "carried"     # an attribute name no policy of the pools reads
+
+
+def ride(req, site, v):
+    """the request `req` carrying the value v at `site`"""
+    r = copy.deepcopy(req)
+    if site in ("rattr", "rattr+ctx"):
+        r["resource"]["attrs"][CARRIED] = v
+    if site == "sattr":
+        r["subject"]["attrs"][CARRIED] = v
+    if site in ("ctx", "rattr+ctx"):
+        r["context"][CARRIED] = v
+    if site == "rattr-list":
+        r["resource"]["attrs"][CARRIED] = [0, v]
+    if site == "sattr-obj":
+        r["subject"]["attrs"][CARRIED] = {"k": v}
+    if site == "ctx-deep":
+        r["context"][CARRIED] = {"k": [v, 1]}
+    if site == "rid":
+        r["resource"]["id"] = v
+    if site == "sid":
+        r["subject"]["id"] = v
+    return r
+
+
+def all_riders():
+    return [(s, n, v) for s in NJ_SITES for n, v in NJ_VALUES]
+
+
+NOW, EXPIRES = {"attr": "context.now"}, {"attr": "resource.attrs.expires"}
+NJPOL = {
+    # lax and strict decide these differently: level "1" / 1 / 1.0 / True against 1, id "7" against 7
+    "modes": {"algorithm": "deny-overrides", "rules": [
+        _rule("z1", "permit", resource={"type": "doc", "attrs": {"level": 1}}),
+        _rule("z2", "deny", actions=["write"], resource={"type": "doc", "id": 7})]},
+    "modes2": {"algorithm": "first-applicable", "rules": [
+        _rule("y1", "permit", resource={"type": "doc", "id": 7}),
+        _rule("y2", "deny", condition={"==": [{"attr": "resource.attrs.level"}, "1"]}),
+        _rule("y3", "permit", actions=["*"], resource={})]},
+    # the values that are not JSON are what the policy reads (strict mode wants aware datetimes, lax parses strings)
+    "time": {"algorithm": "first-applicable", "rules": [
+        _rule("t1", "permit", resource={"type": "doc", "attrs": {"n": 1}}, condition={"before": [NOW, EXPIRES]}),
+        _rule("t2", "deny", condition={"after": [NOW, EXPIRES]}),
+        _rule("t3", "permit", resource={"type": "doc", "id": 7}, condition={"between": [NOW, {"attr": "context.window"}]},
+              obligations=[{"type": "require_mfa"}]),
+        _rule("t4", "deny", actions=["*"], resource={})]},
+    "time2": {"algorithm": "deny-overrides", "rules": [
+        _rule("u1", "permit", condition={"==": [EXPIRES, {"attr": "context.deadline"}]}),
+        _rule("u2", "deny", resource={"type": "doc", "attrs": {"n": "1"}}, condition={"before": [EXPIRES, NOW]}),
+        _rule("u3", "permit", actions=["read", "write"], condition={"in": [{"attr": "context.day"}, {"attr": "resource.attrs.days"}]})]},
+    "dec": {"algorithm": "first-applicable", "rules": [
+        _rule("q1", "permit", resource={"type": "doc", "attrs": {"amount": 1}}),
+        _rule("q2", "deny", condition={"==": [{"attr": "resource.attrs.amount"}, 1.5]}),
+        _rule("q3", "permit", condition={"in": [{"attr": "subject.attrs.dept"}, {"attr": "context.depts"}]}),
+        _rule("q4", "deny", condition={"hasAny": [{"attr": "context.depts"}, ["ops", "hr"]]}),
+        _rule("q5", "permit", actions=["*"], resource={})]},
+    "dec2": {"algorithm": "permit-overrides", "rules": [
+        _rule("w1", "permit", resource={"id": "7"}, condition={">": [{"attr": "resource.attrs.amount"}, 1]}),
+        _rule("w2", "deny", condition={"contains": [{"attr": "context.depts"}, {"attr": "subject.attrs.dept"}]})]},
+}
+NJQUADS = {
+    "modes": (("modes", "modes2"), [mkreq(rattrs={"level": "1"}), mkreq(rattrs={"level": 1}), mkreq(rid=7, rattrs={"level": 1.0}),
+                                    mkreq(rid="7", action="write", rattrs={"level": True})]),
+    "time": (("time", "time2"), [
+        mkreq(rattrs={"n": "1", "expires": lit("datetime", DT1)}, ctx={"now": lit("datetime", DT0)}),
+        mkreq(rattrs={"n": 1, "expires": lit("datetime", DT1)}, ctx={"now": lit("datetime", DT0)}),
+        mkreq(rattrs={"n": "1", "expires": lit("datetime", DT1)}, ctx={"now": DT0}),          # the string that spells it
+        mkreq(rid=7, rattrs={"n": 2, "expires": DTM, "days": lit("tuple", [lit("date", "2026-10-02")])},
+              ctx={"now": lit("datetime", DT0), "window": [lit("datetime", DTM), lit("datetime", DT1)], "mfa": True,
+                   "deadline": DTM, "day": lit("date", "2026-10-02")})]),
+    "dec": (("dec", "dec2"), [
+        mkreq(rattrs={"amount": lit("decimal", "1")}, sattrs={"dept": "ops"}, ctx={"depts": lit("tuple", ["ops", "hr"])}),
+        mkreq(rattrs={"amount": "1"}, sattrs={"dept": "ops"}, ctx={"depts": lit("tuple", ["ops", "hr"])}),
+        mkreq(rattrs={"amount": lit("decimal", "1.5")}, sattrs={"dept": "ops"}, ctx={"depts": lit("set", ["ops"])}),
+        mkreq(rid=7, rattrs={"amount": lit("decimal", "2")}, sattrs={"dept": lit("bytes", "6f7073")}, ctx={"depts": ["ops", "hr"]})]),
+}
+# quadruples of the plain-JSON pools that get a rider (not the object-valued attribute quadruples: finding F16 is
+# about those and is looked for where its class predicate was written, on plain-JSON requests)
+NJ_BASE_QUADS = ["num", "ids", "roles", "ctx", "ctxw"]
+NJ_QUAD_NAMES = sorted(NJQUADS) + NJ_BASE_QUADS
+
+
+def nj_quad(q):
+    if q in NJQUADS:
+        (pa, pb), rs = NJQUADS[q]
+        return [NJPOL[pa], NJPOL[pb]], rs
+    (pa, pb), rs = QUADS[q]
+    return [POL[pa], POL[pb]], rs
+
+
+def nj_configs():
+    """engines sharing the cache: same policy in the OTHER type mode (both orders, reference-storing and pickling
+    caches), another policy in the other / the same mode; and one engine alone in either mode"""
+    return [cfg(("lru", BIG), None, False, two="same", strict2=True), cfg(("lru", 2), TTL, True, two="same", strict2=False),
+            cfg(("pickle",), None, False, two="same", strict2=True), cfg(("dict",), None, False, two="other", strict2=True),
+            cfg(("pickle",), TTL, True, two="other", strict2=True), cfg(("lru", 1), TTL, False, two="other", strict2=False),
+            cfg(("lru", 2), TTL, False), cfg(("dict",), None, True)]
+
+
+def nj_case(c, q, word, rider, mask, rot, fam):
+    """like expand(): the word over letters(c), requests of quadruple q rotated by `rot`, request i carrying `rider`
+    (site, name, value) when mask[i]"""
+    pols, rs = nj_quad(q)
+    rs = rs[rot % len(rs):] + rs[:rot % len(rs)]
+    if rider is not None:
+        rs = [ride(r, rider[0], rider[2]) if mask[i % len(mask)] else r for i, r in enumerate(rs)]
+    al = letters(c)
+    h = []
+    for i in word:
+        x = al[i]
+        if x[0] == "e":
+            h.append(["e", x[1], rs[x[2]]])
+        elif x[0] == "p":
+            h.append(["p", x[1], pols[x[2]]])
+        else:
+            h.append(list(x))
+    g2pol = pols[1] if c["two"] == "other" else pols[0]
+    return {"fam": fam, "lits": True, "cache": c["cache"],
+            "g1": {"strict": c["strict1"], "policy": pols[0], "ttl": c["ttl"]},
+            "g2": {"strict": c["strict2"], "policy": g2pol, "ttl": c["ttl2"]}, "facts": FACTS, "h": h,
+            "_key": (fam, json.dumps(c, sort_keys=True), q, tuple(word), None if rider is None else rider[:2], tuple(mask), rot)}
+
+
+NJ_MASKS = [(1, 1, 1, 1), (1, 0, 1, 1), (0, 1, 1, 0)]
+
+
+def nonjson_enum(rng, riders_per_combo, maxlen, n_longer, fam="nonjson-enum"):
+    """for every (configuration, quadruple): `riders_per_combo` riders (a seeded choice; the quadruples whose own
+    values are not JSON also run without a rider), ALL words of length <= maxlen and n_longer seeded words of length
+    maxlen+1 .. maxlen+2"""
+    riders = all_riders()
+    for c in nj_configs():
+        nl = len(letters(c))
+        for q in NJ_QUAD_NAMES:
+            chosen = rng.sample(riders, riders_per_combo)
+            if q in ("time", "dec"):
+                chosen[0] = None
+            for rider in chosen:
+                mask, rot = rng.choice(NJ_MASKS), rng.randrange(4)
+                for wd in enum_words(nl, maxlen):
+                    yield nj_case(c, q, wd, rider, mask, rot, fam)
+                for _ in range(n_longer):
+                    wd = [rng.randrange(nl) for _ in range(rng.randint(maxlen + 1, maxlen + 2))]
+                    yield nj_case(c, q, wd, rider, mask, rot, fam + "-longer-sampled")
+
+
+def nonjson_sweep():
+    """EVERY (site, value) rider on the requests of the quadruples the two type modes decide differently: the two
+    engines (same policy, other mode, one cache) evaluate the same requests one after the other, both orders"""
+    n = 0
+    for rider in all_riders():
+        for q in ("modes", "ids"):
+            pols, rs = nj_quad(q)
+            for first in (0, 1):
+                n += 1
+                a, b = first, 1 - first
+                rr = [ride(r, rider[0], rider[2]) for r in rs]
+                cache = [["lru", BIG], ["pickle"], ["dict"], ["lru", 2]][n % 4]
+                pol = pols[(n // 4) % 2]
+                yield {"fam": "nonjson-sweep", "lits": True, "cache": cache, "facts": FACTS,
+                       "g1": {"strict": False, "policy": pol, "ttl": [None, TTL][n % 2]},
+                       "g2": {"strict": True, "policy": pol, "ttl": [None, TTL][n % 2]},
+                       "h": [["e", a, rr[0]], ["e", b, rr[0]], ["e", a, rr[1]], ["e", b, rr[1]], ["e", b, rr[2]], ["e", a, rr[2]],
+                             ["e", a, rr[3]], ["e", b, rr[3]], ["e", a, rr[0]], ["e", b, rs[0]], ["e", a, rs[0]]],
+                       "_key": ("nonjson-sweep", rider[:2], q, first)}
+
+
+def nonjson_random(rng, lo, hi):
+    """a random history over the whole pools (random_history) in which every distinct request carries, with
+    probability 0.6, a rider of its own"""
+    case = random_history(rng, lo, hi)
+    riders = all_riders()
+    chosen = {}
+    h = []
+    for op in case["h"]:
+        if op[0] == "e":
+            k = ordered(op[2])
+            if k not in chosen:
+                chosen[k] = rng.choice(riders) if rng.random() < 0.6 else None
+            rd = chosen[k]
+            op = [op[0], op[1], op[2] if rd is None else ride(op[2], rd[0], rd[2])]
+        h.append(op)
+    case.update({"fam": "random-nonjson", "lits": True, "h": h})
+    return case
+
+
+def modes_differ(case, res):
+    """does the history show one request that the two engines (one policy text, different type modes) decide
+    differently when asked WITHOUT a cache?  (evidence that the family reaches the interaction; never a verdict)"""
+    seen = {}
+    for (w, req, pol, strict), r in zip(evals_of(case), res):
+        k = (ordered(req), canon(pol))
+        for strict2, u in seen.get(k, []):
+            if strict2 != strict and u != canon(r["uncached"]):
+                return True
+        seen.setdefault(k, []).append((strict, canon(r["uncached"])))
+    return False
+
+
 def corpus_cases():
     d = lib.VERIF / "corpus" / "C08"
     out = []
@@ -1288,13 +1530,31 @@ def run(chk):
                 "operand, obligation attrs): Guard(p).policy_etag of both; one etag (not None) for two policies that are not the "
                 "same JSON value refutes tag_inj, and then histories 'one engine evaluates, the other sharing the cache evaluates "
                 "the same request' are searched for the failing input. "
+                "REQUESTS CARRYING VALUES THAT ARE NOT JSON (the slow path of the cache key; judged on the implementation alone): "
+                "%d values (aware / naive datetime, date, time, Decimal, tuple, set, frozenset, bytes, an application object, a tuple "
+                "holding a datetime) x %d sites (an unread attribute of resource / subject / context, nested in a list / object, both "
+                "resource and context, the resource id, the subject id) ride on the requests of 5 plain-JSON quadruples and of three "
+                "more (level '1'/1/1.0/True and id '7'/7 that lax and strict decide differently; before/after/between/==/in on "
+                "datetimes incl. the string that spells one; Decimal/tuple/set/bytes operands), on 8 configurations: two engines "
+                "sharing the cache with the SAME policy in the OTHER type mode (both orders; LRU(64), LRU(2), pickling), another "
+                "policy in the other / the same mode (dict, pickling, LRU(1)), one engine alone lax / strict: per (configuration, "
+                "quadruple) a seeded rider (thorough: 6), ALL words of length <= 2 over the two-guard / one-guard alphabets plus seeded "
+                "longer ones; EVERY (site, value) rider in an 11-evaluation script 'lax engine, strict engine, same request' (both "
+                "orders, both mode-sensitive quadruples, four caches); seeded random histories over the whole pools whose requests "
+                "carry riders. "
                 "Every evaluation is compared with a fresh uncached Guard holding the same current policy and the same collaborator "
                 "objects (all Decision fields, type-exact) and, where the model speaks, with the model (hit flag + Decision). non-trivial = at least one "
-                "evaluation of the history was served from the cache; distinct = distinct (configuration, history)" % (len(REQS), len(TEXT_PAIRS), sum(1 for _ in tag_pairs())))
+                "evaluation of the history was served from the cache; distinct = distinct (configuration, history)"
+                % (len(REQS), len(TEXT_PAIRS), sum(1 for _ in tag_pairs()), len(NJ_VALUES), len(NJ_SITES)))
     chk.assumptions = [
-        "requests and policies are JSON values (None, bool, int, float, str, list, dict with str keys) in the generated families; "
-        "the corpus also replays a history with a datetime-valued context entry (fixed finding F26): cached and uncached "
-        "answers must agree there too, judged on the implementation alone",
+        "requests and policies are JSON values (None, bool, int, float, str, list, dict with str keys) in the families compared "
+        "with the model; the families 'nonjson-*' / 'random-nonjson' put datetime / date / time / Decimal / tuple / set / frozenset / "
+        "bytes / application-object values (stable repr, str = repr) into requests and the corpus replays a history with a "
+        "datetime-valued context entry (fixed finding F26): cached and uncached answers must agree there too, judged on the "
+        "implementation alone (the statement itself: engine with the cache vs engine without, same policy, same type mode). "
+        "The quadruples with object-valued resource attributes of >= 2 keys (finding F16) get no rider in the enumerated non-JSON "
+        "families; in random-nonjson histories F16's class predicate applies unchanged (a rider is another attribute). Dicts with "
+        "non-str keys are not generated",
         "both guards use the built-in obligation checker (a second guard with ANOTHER checker sharing a reference-storing cache "
         "is outside the statement's quantifier; the model exhibits the leak of raw['reason'] there: c08_other_checker_leaks)",
         "the relationship checker is a fixed set of facts (no state)",
@@ -1353,6 +1613,12 @@ def run(chk):
     if not stop_early(chk):
         check_cases(chk, list(tag_pairs()))
     for gen in (text_cases(), pair_cases(quick), replacement_cases()):
+        for ch in chunks(gen, 6000):
+            if not stop_early(chk):
+                check_cases(chk, ch)
+    # requests carrying values that are not JSON (slow path of the key) x type modes x shared cache
+    nj = nonjson_enum(rng, 1, 2, 30) if quick else nonjson_enum(rng, 6, 2, 150)
+    for gen in (nonjson_sweep(), nj, (nonjson_random(rng, 8, 40) for _ in range(120 if quick else 2500))):
         for ch in chunks(gen, 6000):
             if not stop_early(chk):
                 check_cases(chk, ch)
